@@ -314,6 +314,19 @@ class Program:
                     return ast.copy_location(ast.Compare(left=r, ops=[op()], comparators=[l]), node)
                 return node
 
+            def visit_Call(self, node):
+                # getattr(x, "name") is x.name; getattr(x, "name", d) is (x.name if hasattr(x, "name") else d): with a
+                # literal name the access is not dynamic, and the attribute read stays visible to every rule
+                self.generic_visit(node)
+                if isinstance(node.func, ast.Name) and node.func.id == "getattr" and not node.keywords and len(node.args) in (2, 3) \
+                        and isinstance(node.args[1], ast.Constant) and isinstance(node.args[1].value, str) and node.args[1].value.isidentifier():
+                    attr = ast.copy_location(ast.Attribute(value=node.args[0], attr=node.args[1].value, ctx=ast.Load()), node)
+                    if len(node.args) == 2:
+                        return attr
+                    has = ast.copy_location(ast.Call(func=ast.Name(id="hasattr", ctx=ast.Load()), args=[node.args[0], node.args[1]], keywords=[]), node)
+                    return ast.copy_location(ast.IfExp(test=has, body=attr, orelse=node.args[2]), node)
+                return node
+
             def visit_If(self, node):
                 self.generic_visit(node)
                 plain_else = node.orelse and not (len(node.orelse) == 1 and isinstance(node.orelse[0], ast.If))
